@@ -68,16 +68,52 @@ type Verdict struct {
 	Table                  []*Entry
 }
 
+// Expected is the final text of the entry: every marker "@@thriftgo_insertion_point(<name>)" whose
+// name has patches bound to this file is replaced by those patches in submission order (whatever
+// characters the name has: a patch names its point literally); a marker of the form the manager
+// recognises ([$.0-9a-zA-Z_]*) without patches is removed; anything else stays as it is.
 func (e *Entry) Expected() string {
-	return MarkerRe.ReplaceAllStringFunc(e.Content, func(mk string) string {
-		p := MarkerRe.FindStringSubmatch(mk)[1]
-		return strings.Join(e.Patches[p], "")
-	})
+	const prefix = "@@thriftgo_insertion_point("
+	var sb strings.Builder
+	rest := e.Content
+	for {
+		i := strings.Index(rest, prefix)
+		if i < 0 {
+			sb.WriteString(rest)
+			break
+		}
+		j := strings.IndexByte(rest[i+len(prefix):], ')')
+		if j < 0 {
+			sb.WriteString(rest)
+			break
+		}
+		if k := strings.Index(rest[i+len(prefix):], prefix); k >= 0 && k < j {
+			// this opening has no closing parenthesis of its own: plain text
+			sb.WriteString(rest[:i+len(prefix)])
+			rest = rest[i+len(prefix):]
+			continue
+		}
+		name := rest[i+len(prefix) : i+len(prefix)+j]
+		end := i + len(prefix) + j + 1
+		sb.WriteString(rest[:i])
+		if ps, ok := e.Patches[name]; ok {
+			sb.WriteString(strings.Join(ps, ""))
+		} else if nameRe.MatchString(name) {
+			// recognised, nothing bound: removed
+		} else {
+			sb.WriteString(rest[i:end])
+		}
+		rest = rest[end:]
+	}
+	return sb.String()
 }
+
+var nameRe = regexp.MustCompile(`^[$.0-9a-zA-Z_]*$`)
+var anyMarkerRe = regexp.MustCompile(`@@thriftgo_insertion_point\([^)]*\)`)
 
 // skeleton matches any text that contains the literal segments of content in order.
 func skeleton(content string) *regexp.Regexp {
-	segs := MarkerRe.Split(content, -1)
+	segs := anyMarkerRe.Split(content, -1)
 	var sb strings.Builder
 	sb.WriteString(`(?s)^`)
 	for i, sg := range segs {
